@@ -146,6 +146,9 @@ def dispatch (op : String) (args : List Sexp) : String :=
   | "rawproto.import" => opRawProtoImport args
   | "tf.apply" => opTfApply args
   | "tf.general" => "unsupported"
+  | "c20.abs2gds" => "unsupported"
+  | "c20.abs2lef" => "unsupported"
+  | "c20.lefrt" => "unsupported"
   | "raw.flatten" => opFlatten args
   | "geom.contains" => opContains args
   | "dep.generic" => opDep false args
